@@ -2,13 +2,14 @@
 #
 # SPDX-License-Identifier: Apache-2.0
 
+import json
 import random
 import sys
 from abc import ABC, abstractmethod
 from pathlib import Path
-from typing import Any, Self
+from typing import Annotated, Any, Self
 
-from pydantic import field_serializer, model_validator
+from pydantic import BeforeValidator, field_serializer, model_validator
 
 from gallia.command import AsyncScript
 from gallia.command.base import AsyncScriptConfig
@@ -52,10 +53,25 @@ class VirtualECUConfig(AsyncScriptConfig):
         return self
 
 
+def _json_object(value: Any) -> Any:
+    # The CLI hands over the tokens of the option as a list of strings.
+    if isinstance(value, list) and all(isinstance(x, str) for x in value):
+        value = " ".join(value)
+
+    if isinstance(value, str):
+        return json.loads(value)
+
+    return value
+
+
 class DbVirtualECUConfig(VirtualECUConfig, DBUDSServer.Behavior):
     path: Path = Field(positional=True)
-    ecu: str | None
-    properties: dict[str, Any] | None = Field(metavar="PROPERTIES")
+    ecu: str | None = Field(None, description="The name of the ECU in the database to mimic")
+    properties: Annotated[dict[str, Any], BeforeValidator(_json_object)] | None = Field(
+        None,
+        description="Only use scan runs in which the ECU had these properties (JSON object)",
+        metavar="PROPERTIES",
+    )
 
 
 class RngVirtualECUConfig(
